@@ -26,9 +26,10 @@ NASTY_HEADERS = ['"q', 'a"b', "x y", " lead", "trail ", "it's", "semi;colon", "c
                  ", name", "end ;", "| p", "` tick", "t\t ab"]
 
 
-def run_process(d, steps):
+def run_process(d, steps, hashseed="0"):
+    # every interpreter gets its own string-hash seed (as separate processes of a user do): results must not depend on it
     p = subprocess.run(["/venv/bin/python", WORKER], input=json.dumps({"dir": d, "steps": steps}), capture_output=True, text=True, timeout=300,
-                       env={**os.environ, "PYTHONHASHSEED": "0"})
+                       env={**os.environ, "PYTHONHASHSEED": hashseed})
     if p.returncode != 0:
         raise MachineryError(f"history worker failed: {p.stderr[-1500:]}")
     return json.loads(p.stdout)
@@ -68,6 +69,10 @@ def make_jobs(rng, d, njobs, nfiles):
             else:
                 prog["comps"].append(lang.assign(lang.var("nh"), lang.fn("count_headers")))
                 prog["comps"].append(lang.assign(lang.var("ex"), lang.hdr("extra")))
+        if rng.random() < 0.4:
+            # a component that keeps its state under a generated variable name (no name qualifier): the name is part of the results
+            prog["comps"].append(rng.choice([lang.fn("every", lang.hdr(0), lang.term(2)), lang.fn("count", lang.fn("exists", lang.hdr(0))),
+                                             lang.fn("count", lang.fn("yes"))]))
         prog["scan"] = lang.scan("from", 1)
         # header-name dependent results: capture the header names the run sees
         text = lang.render_csvpath(prog, path)
@@ -108,10 +113,10 @@ def _replay(args):
             cur.append(dict(jobs[st["j"] - 1], via=st["via"], named=(st["via"] == "named"), _j=st["j"], _st=st))
     segs.append(cur)
     pos = 0
-    for seg in segs:
+    for si, seg in enumerate(segs):
         if not seg:
             continue
-        res = run_process(d, [{k: v for k, v in s.items() if not k.startswith("_")} for s in seg])
+        res = run_process(d, [{k: v for k, v in s.items() if not k.startswith("_")} for s in seg], hashseed=str(1 + (idx * 7 + si) % 4000))
         ri = 0
         for s in seg:
             if s["op"] != "job":
@@ -193,7 +198,7 @@ def main(tier):
     rep.rule = (f"histories over 3 generated (csvpath, file) jobs on 2 files whose header cells contain quotes, delimiters and blanks: all histories of "
                 f"length {emit_len} and random ones of length {sim[1]} (jobs direct or through a CsvPaths instance, new process, clear cache), "
                 "each segment in a fresh interpreter, compared with the same job run first in a fresh process with an empty cache.")
-    rep.assumptions = ["TLC; History.tla", "one CsvPaths instance per process for the 'paths' route", "PYTHONHASHSEED fixed"]
+    rep.assumptions = ["TLC; History.tla", "one CsvPaths instance per process for the 'paths' route", "the reference processes run with PYTHONHASHSEED=0, every process of a history with another seed"]
     return rep.finish()
 
 
